@@ -406,7 +406,7 @@ func runC14(c C14Case, o *Obs) error {
 	for p := 0; p < nreq; p++ {
 		modes = append(modes, mode{"single", p}, mode{"persistent", p})
 	}
-	modes = append(modes, mode{"deadline", 0})
+	modes = append(modes, mode{"deadline", 0}, mode{"far-deadline", 0})
 
 	for _, md := range modes {
 		st := r.store.Clone()
@@ -416,6 +416,7 @@ func runC14(c C14Case, o *Obs) error {
 		}
 		desc := fmt.Sprintf("target %s, %s fault at request %d of %d", c.Target, md.name, md.p, nreq)
 		count, total := 0, 0
+		unbounded := ""
 		var hitOp string
 		switch md.name {
 		case "single", "persistent":
@@ -431,6 +432,22 @@ func runC14(c C14Case, o *Obs) error {
 						hitOp = q.Op
 					}
 					return fakes3.ErrInjected
+				}
+				return nil
+			}
+		case "far-deadline":
+			// a deadline far in the future: nothing fails, but every request must carry it (a
+			// request whose context can never end waits for ever on a store that does not answer)
+			if err := h.conn.Exec("update s3db_conn set deadline='2099-01-01 00:00:00'"); err != nil {
+				h.close()
+				return fmt.Errorf("%s: set deadline: %v", desc, err)
+			}
+			st.Intercept = func(q *fakes3.Req) error {
+				if q.Client == "verif://tgt" {
+					total++
+					if !q.Bounded && unbounded == "" {
+						unbounded = q.Op + " " + q.Key
+					}
 				}
 				return nil
 			}
@@ -470,7 +487,18 @@ func runC14(c C14Case, o *Obs) error {
 				}
 			}
 		}
-		if md.name == "deadline" {
+		if md.name == "far-deadline" {
+			if unbounded != "" {
+				h.close()
+				return fmt.Errorf("%s: the connection has a deadline, yet the statement issued the request %s with a context that has no deadline and cannot be cancelled: if the store does not answer that request the statement blocks for ever", desc, unbounded)
+			}
+			if res.err != nil {
+				h.close()
+				return fmt.Errorf("%s: with a deadline in 2099 and no fault the statement fails: %v", desc, res.err)
+			}
+			o.Class("fault-free-run-with-far-deadline")
+		}
+		if md.name == "deadline" || md.name == "far-deadline" {
 			if err := h.conn.Exec("update s3db_conn set deadline=NULL"); err != nil {
 				h.close()
 				return fmt.Errorf("%s: clearing the deadline: %v", desc, err)
